@@ -1,14 +1,11 @@
 #!/usr/bin/env python3
-"""Developer tool (never run by a check): regenerate the frozen vocabulary and
-fingerprint files of C04 from the current tree, after the diffs were read."""
+"""Developer tool (never run by a check): regenerate the frozen vocabulary
+file of C04 from the current tree, after the diffs were read."""
 import json, os, sys
 sys.path.insert(0, os.path.dirname(os.path.dirname(os.path.abspath(__file__))))
 from rules import common, bvals, c04_builtins as c4, trees
 
 F = c4.FROZEN
-f_genc = common.extract("genc.c", trees=c4.GENC_FUNCS)
-json.dump(c4.genc_fingerprint(f_genc), open(os.path.join(F, "c04_genc_fingerprint.json"), "w"), indent=1, sort_keys=True)
-print("fingerprint written")
 
 # vocabulary: callees appearing in any canonical tree of today's (triaged) tree
 c4.COLLECT = {"callees": set(), "uncompared": {}}
